@@ -206,6 +206,12 @@ def run(ck):
     for hi in range(12 if not ck.thorough() else 240):
         if ck.mine(hi):
             status_at_every_step(ck, mons, base + 313 * hi, hi)
+    # an IKE_SA that ends by a fatal error (an authenticated peer names a CHILD_SA SPI of an impossible size while the IKE_SA already has CHILD_SAs) leaves the
+    # table TOGETHER with its kernel SAs (the scenario of C10's odd-SPI family, judged here for the table clause)
+    from vf.checks import c10 as c10_
+    for ci in range(30):
+        if ck.mine(ci + 4):
+            c10_.odd_spi_sizes(ck, [tab], base + 640 + ci, ci)
     # (a) duplication patterns of rekey / delete exchanges
     lists = [[('A', 'rekey_ike')], [('B', 'rekey_ike')], [('A', 'delete_ike')], [('B', 'delete_ike')],
              [('A', 'rekey_ike'), ('B', 'rekey_ike')], [('A', 'rekey_ike'), ('B', 'delete_ike')],
@@ -691,6 +697,7 @@ def run(ck):
 
 
 def verdict(ck):
+    ck.floor('IKE_SAs ended by an authentic message with an odd SPI size, kernel SAs compared', ck.counters['odd_spi.sad_equals_tracked'], 24)
     ck.floor('status queries between the single steps of histories that start before the handshake', ck.counters['status.queries_between_single_steps'], 400)
     ck.floor('SPI collision set-ups between two IKE_SAs of one pair of addresses', ck.counters['collision.two_ike_sas_of_one_pair_setups'], 6)
     ck.floor('table checks', ck.counters['table.steps_checked'], 20000)
